@@ -79,7 +79,7 @@ func canonOutcome(o *Outcome) string {
 	for _, k := range ks {
 		fmt.Fprintf(&sb, "tx.%s=%q\n", k, o.TX[k])
 	}
-	fmt.Fprintf(&sb, "highest=%s errs=%v\n", o.Highest, o.Errs)
+	fmt.Fprintf(&sb, "highest=%s errs=%v auditparts=%s\n", o.Highest, o.Errs, o.Parts)
 	return sb.String()
 }
 
